@@ -80,6 +80,22 @@ fn loc(tcx: TyCtxt<'_>, sp: Span) -> (String, i128) {
     (name, l.line as i128)
 }
 
+// line of the span itself (for macro_rules expansions: the line inside the macro
+// definition) when it lies in a real local file; 0 otherwise
+fn dline_of(tcx: TyCtxt<'_>, sp: Span) -> J {
+    if sp.is_dummy() || !sp.from_expansion() {
+        return J::Int(0);
+    }
+    let sm = tcx.sess.source_map();
+    let l = sm.lookup_char_pos(sp.lo());
+    let r = sm.lookup_char_pos(root_span(sp).lo());
+    if l.file.name == r.file.name {
+        J::Int(l.line as i128)
+    } else {
+        J::Int(0)
+    }
+}
+
 fn line_of(tcx: TyCtxt<'_>, sp: Span) -> J {
     J::Int(loc(tcx, sp).1)
 }
@@ -387,11 +403,20 @@ impl<'a, 'tcx> Cx<'a, 'tcx> {
                     ("callee", self.callee(func)),
                     ("args", J::Arr(args.iter().map(|a| self.operand(&a.node)).collect())),
                     ("arg_tys", J::Arr(arg_tys)),
+                    (
+                        "arg_defs",
+                        J::Arr(
+                            args.iter()
+                                .map(|a| self.defs_in_ty(a.node.ty(&self.body.local_decls, tcx)))
+                                .collect(),
+                        ),
+                    ),
                     ("dest", self.place(destination)),
                     ("dest_ty", J::Str(ty_s(destination.ty(&self.body.local_decls, tcx).ty))),
                     ("target", match target { Some(b) => J::Int(b.index() as i128), None => J::Null }),
                     ("unwind", self.unwind(unwind)),
                     ("line", line_of(tcx, *fn_span)),
+                    ("dline", dline_of(tcx, *fn_span)),
                     ("exp", exp),
                 ])
             }
@@ -518,6 +543,7 @@ impl<'a, 'tcx> Cx<'a, 'tcx> {
                             ("lhs", self.place(lhs)),
                             ("rv", self.rvalue(rv)),
                             ("line", line_of(tcx, st.source_info.span)),
+                            ("dline", dline_of(tcx, st.source_info.span)),
                             ("exp", J::Bool(st.source_info.span.from_expansion())),
                         ]));
                     }
